@@ -296,7 +296,8 @@ def drive(tier):
 def run(tier):
     rep = Report("C16", tier)
     rep.add_mc("MC_Checks", vlib.run_mc("MC_Checks", workers=4))
-    recs = drive(tier)
+    recs, nsecond, ndiff = vlib.second_pass(drive, tier)
+    rep.cov["second_pass_calls"], rep.cov["second_pass_differing"] = nsecond, ndiff
     mm = vlib.validate("Trace_Checks", recs)
     rep.apply_mismatches(recs, mm)
     nchain = chainhist.run_for(rep, "C16", tier)
